@@ -562,7 +562,10 @@ func run(c *core.Ctx) error {
 	c.Set("type_cases", len(cases)-nrand)
 	c.Set("random_type_cases", nrand)
 	c.Set("fuser_cases", len(spillCases))
-	c.Set("exhaustive", true)
+	// every enumerated type case is replayed with the default memory limit in both tiers; the spill and
+	// poisoned-input variants of every case only in the thorough tier
+	c.Set("exhaustive", !c.Quick())
+	c.Set("exhaustive_at_default_memory_limit", true)
 	tainted := map[string]int{}
 	for i := range cases {
 		for _, t := range cases[i].Taint {
@@ -597,7 +600,7 @@ func run(c *core.Ctx) error {
 	c.Add("traces_validated_against_impl", int64(len(cases)))
 	c.Logf("type cases replayed: %d evaluations, %d predictions confirmed, %d drift", c.Count("evaluations"), c.Count("predictions_confirmed"), c.Count("drift_count"))
 	for i := range spillCases {
-		if err := e.checkFuser(&spillCases[i], c.Seed+int64(i)); err != nil {
+		if err := e.checkFuserSafe(&spillCases[i], c.Seed+int64(i)); err != nil {
 			return fmt.Errorf("fuser case %d: %w", i, err)
 		}
 	}
@@ -679,9 +682,9 @@ func (e *env) probeFixed() (string, error) {
 // exported tables.
 func (e *env) runTLC() ([]typeCase, []fuserCase, error) {
 	c := e.c
-	nshards, cfgName, timeout := 3, "FuseMerge.quick.cfg", 4*time.Minute
+	nshards, cfgName, timeout := 3, "FuseMerge.quick.cfg", 8*time.Minute
 	if !c.Quick() {
-		nshards, cfgName, timeout = 8, "FuseMerge.thorough.cfg", 18*time.Minute
+		nshards, cfgName, timeout = 8, "FuseMerge.thorough.cfg", 45*time.Minute
 	}
 	// several JVMs run side by side: keep each one's GC pool small; the runs are short, C1 code is fast enough and compiles sooner
 	os.Setenv("JAVA_TOOL_OPTIONS", "-XX:ParallelGCThreads=2 -XX:TieredStopAtLevel=1")
@@ -787,7 +790,7 @@ func (e *env) replay() error {
 	case "fuser":
 		fc := fuserCase{Input: w.Input, Mem: w.Mem}
 		fc.SpillAt = -1
-		return e.checkFuser(&fc, w.Seed)
+		return e.checkFuserSafe(&fc, w.Seed)
 	default:
 		zctx := zed.NewContext()
 		var inTypes []zed.Type
